@@ -53,6 +53,9 @@ Quiesce ==
        \cup Flag(s.closes = {} /\ \A x \in Range(Ev.pending) : SubSeq(x, 1, 2) = "op", "a_close_did_not_return")
        \cup Flag(s.ops = {} /\ \A x \in Range(Ev.pending) : SubSeq(x, 1, 2) # "op", "c_operation_blocked_for_ever_by_shutdown")
        \cup Flag(s.closed >= s.c.ncloses, "b_repeated_close_did_not_return")
+       \* a keystore's datastore belongs to its owner, who may close it once Close has returned: a repeated Close
+       \* does not go back to it
+       \cup Flag("dsafterclose" \in DOMAIN Ev => Ev.dsafterclose = 0, "b_repeated_close_went_back_to_the_datastore")
        \cup Flag(Len(Ev.left) = 0, "a_goroutines_left_after_close")
        \cup Flag((s.closes = {} /\ Len(Ev.pending) = 0) => Ev.subsleft = 0, "a_subscription_left_after_close")])
 
